@@ -96,6 +96,11 @@ claim('C18', 'devx',
       'A: every byte string of length <= 5 (quick) / <= 6 (thorough) over {00,01,a,<,7F,80,FF} plus zero / incompressible / XML-like content of sizes 2^k and 2^k+-1 up to 1 MiB is sent through DeflateAndBase64 then InflateAndDecode(DEFLATE) and must come back identical; 10 near-miss encoding identifiers must be errors; Marshal results must survive later Marshal calls. B: 6 emission scenarios on the real handlers (Success response POST/Redirect, SSO failure response with storage error text in StatusMessage, LogoutResponse, SOAP response, metadata incl. host-derived issuer) x every outside-influenced string field x 16 legal symbols (recovered exactly by the library decoders) and 9 illegal-character symbols (C0 controls, U+FFFE/FFFF, CESU surrogate, broken UTF-8: element/attribute skeleton equals the all-plain baseline), one field (quick) / two fields (thorough); every emitted document must be one well-formed document for the harness parser and, in one batch, for python3 expat.',
       'Known finding: CR in RelayState (HTML form field, not the XML message).', '§5 C18')
 
+claim('C11', 'devx+bfs',
+      'deviation-bounded exhaustive enumeration of provider configurations, each explored as a fixed multi-request history on one real provider with cross-endpoint agreement oracles',
+      'Every assignment of 16 configuration dimensions (7 issuer forms incl. host- and Forwarded-derived; each of the six endpoints default / custom with and without leading slash / trailing slash / deep path / external URL; WantAuthRequestsSigned in five spellings; encryption algorithm, organisation, contact, validity, cache duration, metadata signing; three request Hosts; response-key rotation) with <= 2 (quick) / <= 3 (thorough) deviations. For each configuration and Host: the metadata must be one well-formed EntityDescriptor; a conformant request of each kind addressed to each advertised SSO / SLO / AttributeService location and sent to the route that location maps onto must get that kind\'s positive outcome; entityID must equal the Issuer of the SSO error reply, callback success and failure replies, assertion, LogoutResponses and attribute-query response; the signing KeyDescriptor must equal the certificate endpoint\'s certificate and verify the issued assertion (also after the response key is rotated); WantAuthnRequestsSigned must be advertised true exactly when an unsigned request is refused.',
+      'External-URL endpoints cannot be mapped onto routes.', '§5 C11')
+
 NOT_YET = {i: 'check not built yet in this revision (planned: see DESIGN.md §5 %s); not claimed until its machinery exists' % i for i in ids}
 
 def main():
